@@ -280,7 +280,7 @@ void phist_exec(const phist *h, int i, vh_obj *ob, ctrans *t, const char *prefix
         uint8_t *in = pl(1, o, 0, o->len), *out, *tw = NULL;
         ua = 2;
         memcpy(in, h->pool + o->doff, o->len);
-        if (o->flags & F_INPLACE) out = in; else { out = pl(2, o, 1, o->len); ub = 1; memset(out, 0xEE, o->len); }
+        if (o->flags & F_INPLACE) out = in; else { out = pl(2, o, 1, o->len); ub = 1; memset(out, 0xEE, o->len); vh_make_undef(out, o->len); }
         if (c->id == CIPH_MANTIS) { tw = pl(3, o, 0, o->len); ut = 1; memcpy(tw, h->pool + o->doff + o->len, o->len); }
         vh_call_begin(o->kind == P_DECRYPT ? "parallel_ecb_decrypt" : "parallel_ecb_encrypt");
         ret = (o->kind == P_DECRYPT ? c->par_decrypt : c->par_encrypt)((o->flags & F_NULL_OUT) ? NULL : out, (o->flags & F_NULL_IN) ? NULL : in, tw, o->len, obj);
